@@ -94,10 +94,20 @@ func (hp *HTTPProxy) errorResponse(req *http.Request, err error) *http.Response 
 	if code == http.StatusProxyAuthRequired {
 		resp.Header.Set("Proxy-Authenticate", fmt.Sprintf("Basic realm=%q", hp.config.Name))
 	}
-	resp.Header.Set(ErrorHeader, hp.config.Name+" "+err.Error())
+	resp.Header.Set(ErrorHeader, hp.config.Name+" "+headerSafe(err.Error()))
 	resp.Header.Set("Content-Type", "text/plain; charset=utf-8")
 	resp.ContentLength = int64(body.Len())
 	return resp
+}
+
+// headerSafe replaces control characters, the error text may quote bytes received from a peer.
+func headerSafe(s string) string {
+	return strings.Map(func(r rune) rune {
+		if r < ' ' && r != '\t' || r == 0x7f {
+			return ' '
+		}
+		return r
+	}, s)
 }
 
 type errorHandler func(*http.Request, error) (int, string, string)
